@@ -788,6 +788,8 @@ func c08LeafColumn(f *parquet.File, col int) *parquet.Column {
 type c08RowsTarget interface {
 	read(n int, first int64) (cnt int, err error, bad string)
 	read1(first int64) (cnt int, err error, bad string, ok bool)
+	// parquet.CopyRows from the reader into a destination of the kind (copy.go)
+	copy(kind int64, first int64) (cnt int, err error, bad string, ok bool)
 	seek(k int64) error
 	reset() bool
 	close()
@@ -1028,6 +1030,37 @@ func c08RunRows(t c08RowsTarget, N int64, cs *c08Case, res *c08Result) {
 				res.fail("error", "op %d Read at row %d of %d: unexpected error %v", i, pos, N, err)
 			}
 			pos += int64(cnt)
+		case code == 'c' && arg >= 0:
+			// parquet.CopyRows of the rest of the reader: the batch of a read to the end
+			cnt, err, bad, ok := t.copy(arg, pos)
+			if !ok {
+				res.outs = append(res.outs, "?")
+				res.fail("bad-op", "no destination of kind %d", arg)
+				continue
+			}
+			if bad != "" {
+				res.outs = append(res.outs, fmt.Sprintf("i?%d/1", cnt))
+				res.fail("wrong-rows", "op %d CopyRows at row %d of %d: %s", i, pos, N, bad)
+				pos += int64(cnt)
+				continue
+			}
+			if cnt > 0 {
+				res.outs = append(res.outs, fmt.Sprintf("i%x.%x/1", pos, cnt))
+			} else {
+				res.outs = append(res.outs, "i/1")
+			}
+			switch {
+			case err != nil:
+				res.fail("error", "op %d CopyRows at row %d of %d: unexpected error %v", i, pos, N, err)
+			case pos+int64(cnt) < N:
+				res.fail("early-eof", "op %d CopyRows at row %d of %d copied %d rows", i, pos, N, cnt)
+			case cnt > 0 && pos+int64(cnt) > N:
+				res.fail("wrong-rows", "op %d CopyRows at row %d of %d copied %d rows", i, pos, N, cnt)
+			}
+			pos += int64(cnt)
+			if fwd && pos < N {
+				pos = N
+			}
 		case code == 's':
 			err := t.seek(arg)
 			e := c08Err(err)
@@ -1645,7 +1678,7 @@ func c08CoqNats(xs []int64) string {
 }
 
 func runC08(c *core.Ctx) {
-	c.Res.Rule = "files of rows (id, optional, list, dictionary string, optional leaf in an optional group; every value identifies its row; the five columns have different page layouts) written with small pages (PageBufferSize 16..96), 1..4 row groups, data pages v1 and v2; also row groups of uneven sizes (Flush), unencrypted and encrypted (encrypted footer / plaintext footer, footer key only / column keys); opened with/without SkipPageIndex, sync/async, ReadBufferSize default/16/64/300/65536. Histories over {ReadPage | ReadRows(n in 1,3,64,1000) | Reader.Read(one row), SeekToRow(k: 0, page and row-group boundaries +-1, N-1, N, N+3, random), load the offset index, Reset}: a corpus (the repaired defects first), ALL histories of length 4 (quick) / 5 (thorough) over a 9..12 letter alphabet on 22-row files, random histories up to length 40 on 300-row files; run on ColumnChunk.Pages (every column), RowGroup.Rows, NewReader (ReadRows and Read), NewGenericReader (Read), Column.Pages() / PagesFrom of every leaf column of the file (columnPages: one page cursor per row group; histories with backward seeks out of a row group that has been read from), and the column pages (multiPages) and rows of MultiRowGroup over all row groups, flat and nested 1..4 levels deep in fixed and random shapes (the outputs must be those of the flat concatenation). Histories of Column.Pages() (all) and of the other page readers (half of the random ones) are followed by a sequential read to io.EOF whose pages must be the rows from the current position on. Every per-operation output (first row and count of the page/batch, io.EOF) is compared with the extracted model of that layer (page cursor; rowGroupRows over the page layouts of all five columns; multiPages; columnPages; reader/Reader/GenericReader), a sample also with the position specification, async page histories also with the asyncPages model under model-drawn schedules. Derived readers (derived.go, variant.go; the same rows, so every value identifies its row): the Rows() of MergeRowGroups over 1..4 sorted inputs (buffers, files, both; ids dealt round robin = overlapping key ranges -> mergedRowGroupRows, disjoint stretches -> concatenatingRowsWrapper over sorted segments, ids present in two inputs with and without DropDuplicatedRows, one input with DropDuplicatedRows -> deduplicated row group, two inputs of 1300 rows overlapping in 100 ids -> row-range views around a merged stretch; schema handed over or merged from the inputs = every input behind a conversion that reorders the columns) and ConvertRowReader (forwardRowSeeker; same schema / columns dropped, reordered and one added) over scripted in-memory readers (the c-th call returns at most caps[c mod len] rows, caps from {none,1,2,3,4,5,7,8,16,63,64}, io.EOF with or after the last rows) and over the rows of a file: these document forward-only seeking, so histories are ALL histories of length 3-4 (4-5 on a merged source) over {ReadRows 1/3/64 (convert: 1/3/4/64), SeekToRow(a few rows, the middle, N-1, N, N+3)} on 30/40-row sources (a backward seek must be refused with the position unchanged, or be honoured) and random forward-biased histories up to length 24 (seeks ahead by 0, 1, a few rows, about a batch, far, to N-1, N, N+3; reads of 1,3,7,64,1000 rows) on 100..300 and 2600-row sources, the batch buffer reused from read to read; seeks in both directions on the column pages of the merged row groups (multiPages over row-range views, converted pages, buffer pages; expected rows = the sequential read of the id column), on ConvertRowGroup(...).Rows() and its column pages (a column the source lacks included), on GenericBuffer / RowBuffer Rows() and the pages of their columns (all histories of length 3-4 on 22 rows, random ones on 1/100/300 rows); VariantReader over a shredded VARIANT column of 200 rows (typed / residual / partial object / list / unshredded field / null rows; pages of 128..1024 bytes, v1/v2): ALL histories of length 3-4 over {create cursor a / b / elements of l, Next 1/8/64, SeekToRow 0/9/100/199/200} and random histories of length 2..21 over {create one of 10 cursors, Next 1/3/8/64/1000, SeekToRow anywhere, N, beyond}: every window must be the rows from the position (typed vector of a = the row numbers) and the state of every cursor in effect must equal that of a fresh reader that holds the same cursors from the start and is read sequentially. Models of these layers: forwardRowSeeker / mergedRowGroupRows / concatenatingRowsWrapper over a reader with capped batches (Cursor/Forward.v; scripted: every output; merged: the observed batch length is the cap), the row window of VariantReader over lazily opened leaves (Cursor/VariantLeaves.v; the first row each typed leaf delivered, read off its first value), rowGroupRows / the page cursor over one-page columns for buffers and over the source layout for converted row groups. A case = (file, open options, reader, history); non-trivial = at least 2 operations; distinct by the JSON of the case."
+	c.Res.Rule = "files of rows (id, optional, list, dictionary string, optional leaf in an optional group; every value identifies its row; the five columns have different page layouts) written with small pages (PageBufferSize 16..96), 1..4 row groups, data pages v1 and v2; also row groups of uneven sizes (Flush), unencrypted and encrypted (encrypted footer / plaintext footer, footer key only / column keys); opened with/without SkipPageIndex, sync/async, ReadBufferSize default/16/64/300/65536. Histories over {ReadPage | ReadRows(n in 1,3,64,1000) | Reader.Read(one row), SeekToRow(k: 0, page and row-group boundaries +-1, N-1, N, N+3, random), load the offset index, Reset}: a corpus (the repaired defects first), ALL histories of length 4 (quick) / 5 (thorough) over a 9..12 letter alphabet on 22-row files, random histories up to length 40 on 300-row files; run on ColumnChunk.Pages (every column), RowGroup.Rows, NewReader (ReadRows and Read), NewGenericReader (Read), Column.Pages() / PagesFrom of every leaf column of the file (columnPages: one page cursor per row group; histories with backward seeks out of a row group that has been read from), and the column pages (multiPages) and rows of MultiRowGroup over all row groups, flat and nested 1..4 levels deep in fixed and random shapes (the outputs must be those of the flat concatenation). Histories of Column.Pages() (all) and of the other page readers (half of the random ones) are followed by a sequential read to io.EOF whose pages must be the rows from the current position on. Every per-operation output (first row and count of the page/batch, io.EOF) is compared with the extracted model of that layer (page cursor; rowGroupRows over the page layouts of all five columns; multiPages; columnPages; reader/Reader/GenericReader), a sample also with the position specification, async page histories also with the asyncPages model under model-drawn schedules. Derived readers (derived.go, variant.go; the same rows, so every value identifies its row): the Rows() of MergeRowGroups over 1..4 sorted inputs (buffers, files, both; ids dealt round robin = overlapping key ranges -> mergedRowGroupRows, disjoint stretches -> concatenatingRowsWrapper over sorted segments, ids present in two inputs with and without DropDuplicatedRows, one input with DropDuplicatedRows -> deduplicated row group, two inputs of 1300 rows overlapping in 100 ids -> row-range views around a merged stretch; schema handed over or merged from the inputs = every input behind a conversion that reorders the columns) and ConvertRowReader (forwardRowSeeker; same schema / columns dropped, reordered and one added) over scripted in-memory readers (the c-th call returns at most caps[c mod len] rows, caps from {none,1,2,3,4,5,7,8,16,63,64}, io.EOF with or after the last rows) and over the rows of a file: these document forward-only seeking, so histories are ALL histories of length 3-4 (4-5 on a merged source) over {ReadRows 1/3/64 (convert: 1/3/4/64), SeekToRow(a few rows, the middle, N-1, N, N+3)} on 30/40-row sources (a backward seek must be refused with the position unchanged, or be honoured) and random forward-biased histories up to length 24 (seeks ahead by 0, 1, a few rows, about a batch, far, to N-1, N, N+3; reads of 1,3,7,64,1000 rows) on 100..300 and 2600-row sources, the batch buffer reused from read to read; seeks in both directions on the column pages of the merged row groups (multiPages over row-range views, converted pages, buffer pages; expected rows = the sequential read of the id column), on ConvertRowGroup(...).Rows() and its column pages (a column the source lacks included), on GenericBuffer / RowBuffer Rows() and the pages of their columns (all histories of length 3-4 on 22 rows, random ones on 1/100/300 rows); VariantReader over a shredded VARIANT column of 200 rows (typed / residual / partial object / list / unshredded field / null rows; pages of 128..1024 bytes, v1/v2): ALL histories of length 3-4 over {create cursor a / b / elements of l, Next 1/8/64, SeekToRow 0/9/100/199/200} and random histories of length 2..21 over {create one of 10 cursors, Next 1/3/8/64/1000, SeekToRow anywhere, N, beyond}: every window must be the rows from the position (typed vector of a = the row numbers) and the state of every cursor in effect must equal that of a fresh reader that holds the same cursors from the start and is read sequentially. Models of these layers: forwardRowSeeker / mergedRowGroupRows / concatenatingRowsWrapper over a reader with capped batches (Cursor/Forward.v; scripted: every output; merged: the observed batch length is the cap), the row window of VariantReader over lazily opened leaves (Cursor/VariantLeaves.v; the first row each typed leaf delivered, read off its first value), rowGroupRows / the page cursor over one-page columns for buffers and over the source layout for converted row groups. Bulk copies (copy.go): parquet.CopyRows(dst, reader) as an operation of the histories of every row reader (dst: a bare RowWriter | a RowWriter with the reader's schema | a GenericWriter, i.e. the RowWriterTo shortcut of RowBuffer rows, the RowReaderFrom shortcut of the writers and the generic loop), after nothing / a seek / a partial read / both and followed by reads, seeks back and further copies: the rows handed over must be those from the position to the end, then the reader stands at the end; model Cursor/Copy.v (ReadRows(42) until io.EOF over the reader's model). A case = (file, open options, reader, history); non-trivial = at least 2 operations; distinct by the JSON of the case."
 	var vm, vmRows, vmReader, vmNested, vmCP []string
 	// Column.Pages(): the column pages against run_cpages_indexed inside coqc
 	addVmCP := func(cs *c08Case) {
@@ -2205,6 +2238,7 @@ func runC08(c *core.Ctx) {
 		}
 	}
 	c08RunDerivedAll(c)
+	c08RunCopyAll(c)
 	c.Note("row-range views (row_range.go) have no exported constructor; they are reached through the merge planner: the merged row groups of shape `lone` (two inputs of 1300 rows whose key ranges overlap in 100 ids) are read through Rows() and through their column pages")
 	c.Note("async read mode: histories are run under the Go scheduler as it comes; the asyncPages model is run under schedules drawn by the oracle (2 per async page history) and must return the same outputs")
 
